@@ -25,7 +25,7 @@ TRUSTED = ["Coq 8.16.1 kernel + vm_compute (theorems: Closed under the global co
 RULE = ("pairs of samples: integer grids of side 1..5 in 1-3 dimensions (distance ties and duplicates within/across samples are "
         "the norm), dyadic and generic binary64 coordinates, sizes 0..14 chosen independently (equal and unequal), structured "
         "pairs (same set with different multiplicities, subset, disjoint translate, single distinct point, empty first sample), "
-        "k in {1,2,3,5,8,|D|,|D|+1}; every pair is also built with the samples swapped and three permutation trials are "
+        "k in {1,2,3,5,8,|D|-1,|D|} and, in 8 % of the pairs, |D|+1 (must be refused); every pair is also built with the samples swapped and three permutation trials are "
         "evaluated. Sequences: NNDVI over 3-8 batches of changing size whose location shifts, k in {1,2,3,5}, sampling_times in "
         "{1,2,5,20,50}, alpha in {0.01,0.05,0.2,0.4,0.7}, np.random.seed(f(case, step)) before each update. Non-trivial: a pair "
         "that builds with at least two pooled points; a sequence with at least one drift and one non-drift update.")
